@@ -2,11 +2,19 @@
 //! the field 23E code rules T47/D66/D67/E46)
 use super::*;
 
-const VALID_23E: &[&str] = &["CHQB", "CMSW", "CMTO", "CMZB", "CORT", "EQUI", "INTC", "NETS", "OTHR", "PHON", "REPA", "RTGS", "URGP"];
+const VALID_23E: &[&str] = &[
+    "CHQB", "CMSW", "CMTO", "CMZB", "CORT", "EQUI", "INTC", "NETS", "OTHR", "PHON", "REPA", "RTGS",
+    "URGP",
+];
 const WITH_INFO: &[&str] = &["CMTO", "PHON", "OTHR", "REPA"];
 /// unordered pairs of codes that must not appear together in one occurrence of sequence B
 const BAD_PAIRS: &[(&str, &[&str])] = &[
-    ("CHQB", &["CMSW", "CMTO", "CMZB", "CORT", "NETS", "PHON", "REPA", "RTGS", "URGP"]),
+    (
+        "CHQB",
+        &[
+            "CMSW", "CMTO", "CMZB", "CORT", "NETS", "PHON", "REPA", "RTGS", "URGP",
+        ],
+    ),
     ("CMSW", &["CMTO", "CMZB"]),
     ("CMTO", &["CMZB"]),
     ("CORT", &["CMSW", "CMTO", "CMZB", "REPA"]),
@@ -16,7 +24,9 @@ const BAD_PAIRS: &[(&str, &[&str])] = &[
 
 fn is_zero(f: &GenField) -> bool {
     // DecStr is normalised: no leading zeros in `int`, no trailing zeros in `frac`
-    amount_of(f).map(|d| d.int.is_empty() && d.frac.is_empty()).unwrap_or(false)
+    amount_of(f)
+        .map(|d| d.int.is_empty() && d.frac.is_empty())
+        .unwrap_or(false)
 }
 
 pub fn expected(v: &RView) -> Expect {
@@ -74,12 +84,18 @@ pub fn expected(v: &RView) -> Expect {
     let oc_all = !bs.is_empty() && bs.iter().all(|b| has(b, "50[FGH]"));
     e.must_if((oc_a && oc_any) || (!oc_a && !oc_all), "D61");
     // C4 (D62): instructing party 50a C/L in A or in B occurrences, not both
-    e.must_if(has(&a, "50[CL]") && bs.iter().any(|b| has(b, "50[CL]")), "D62");
+    e.must_if(
+        has(&a, "50[CL]") && bs.iter().any(|b| has(b, "50[CL]")),
+        "D62",
+    );
     // C6 (D64): 52a in A or in B occurrences, not both
     e.must_if(has(&a, "52*") && bs.iter().any(|b| has(b, "52*")), "D64");
     // C8 (D98): 21R present => one currency in all 32B of sequence B
     if has(&a, "21R") {
-        let ccys: BTreeSet<String> = bs.iter().filter_map(|b| get(b, "32B").map(ccy_of)).collect();
+        let ccys: BTreeSet<String> = bs
+            .iter()
+            .filter_map(|b| get(b, "32B").map(ccy_of))
+            .collect();
         e.must_if(ccys.len() > 1, "D98");
     }
     e
@@ -96,9 +112,14 @@ pub fn content_hook(tag: &str, src: &mut crate::choice::Src) -> Option<String> {
         "23E" => {
             // pairs from the combination table are likelier with a pool biased to the codes that occur in it
             let c = *src.pick(&[
-                "CHQB", "CMSW", "CMTO", "CMZB", "CORT", "EQUI", "INTC", "NETS", "OTHR", "OTHR", "PHON", "REPA", "RTGS", "URGP", "ZZZZ", "HOLD",
+                "CHQB", "CMSW", "CMTO", "CMZB", "CORT", "EQUI", "INTC", "NETS", "OTHR", "OTHR",
+                "PHON", "REPA", "RTGS", "URGP", "ZZZZ", "HOLD",
             ]);
-            if src.chance(1, 3) { Some(format!("{c}/INFO")) } else { Some(c.to_string()) }
+            if src.chance(1, 3) {
+                Some(format!("{c}/INFO"))
+            } else {
+                Some(c.to_string())
+            }
         }
         _ => None,
     }
